@@ -2503,14 +2503,13 @@ impl SignedDurationRound {
                 plural = self.smallest.plural(),
             ));
         }
-        if self.increment <= 0 {
-            return Err(err!(
-                "rounding increment {increment} for {unit} must be \
-                 greater than zero",
-                increment = self.increment,
-                unit = self.smallest.plural(),
-            ));
-        }
+        // The increment must evenly divide the next highest unit (and must
+        // not be equivalent to it), as documented on
+        // `SignedDurationRound::increment`.
+        crate::util::round::increment::for_time(
+            self.smallest,
+            self.increment,
+        )?;
         let nanos = t::NoUnits128::new_unchecked(dur.as_nanos());
         let increment = t::NoUnits::new_unchecked(self.increment);
         let rounded = self.mode.round_by_unit_in_nanoseconds(
